@@ -273,5 +273,11 @@ func Replay(raw json.RawMessage) hx.Outcome {
 	if head.Fam == "collect" {
 		return replayCollect(raw)
 	}
+	if head.Fam == "shell" {
+		return replayShell(raw)
+	}
+	if head.Fam == "history" {
+		return replayHistory(raw)
+	}
 	return replayParse(raw)
 }
